@@ -225,6 +225,16 @@ def wellformed(netlist, pid, max_objs=10 ** 9):
                     out.append((pid + '.self-contained', 'instance.reference', 'instance %r of %r references %s' % (
                         i.name, d.name, 'nothing' if r is None else 'a definition outside the netlist (%r)' % r.name)))
                     break
+    # what a reader hands back contains no stray instances: whoever references a definition of the netlist is a child of one of its
+    # definitions or its top instance
+    for l in libs:
+        for d in l.definitions:
+            for i in d.references:
+                par = i.parent
+                if i is not netlist.top_instance and (par is None or id(par) not in defs):
+                    out.append((pid + '.self-contained', 'definition.references', 'definition %r is referenced by instance %r, which is %s' % (
+                        d.name, i.name, 'placed nowhere and is not the top instance' if par is None else 'a child of a definition outside the netlist')))
+                    break
     t = netlist.top_instance
     if t is not None and (t.reference is None or id(t.reference) not in defs):
         out.append((pid + '.self-contained', 'top.reference', 'top instance references a definition outside the netlist'))
